@@ -108,6 +108,6 @@ def runScenario (sc : SScenario) : List String :=
   let r := sc.tops.foldl (fun (acc : SSt × List String × Nat) t =>
     let st := runTop p { acc.1 with log := [] } t
     (st, acc.2.1 ++ [s!"top {acc.2.2}"] ++ st.log.reverse.map showEv, acc.2.2 + 1)) (({} : SSt), [], 0)
-  r.2.1 ++ ["end"]
+  r.2.1 ++ (if r.1.oof then ["fuel-out"] else []) ++ ["end"]
 
 end Cobweb.Sc
